@@ -25,7 +25,7 @@ def cases(tier, seed):
         structs += [([2, 2, 2, 2], [1, 1, 1, 1, 1], None), ([3, 3, 2], [1, 1, 1, 1], None)]
     # (b) sparse base points of rank 2..3 with symbolic positive magnitudes (z, w still arbitrary)
     sparse = [([2, 2], [1, 2, 1], None), ([2, 3], [1, 2, 1], None), ([3, 3], [1, 3, 1], None), ([2, 2, 2], [1, 2, 2, 1], None), ([2, 2, 2], [1, 2, 1, 1], None), ([2, 2], [1, 2, 1], [2, 1]),
-              ([2, 2, 1], [1, 2, 1, 1], None), ([2, 1, 2], [1, 2, 2, 1], None)]
+              ([2, 2, 1], [1, 2, 1, 1], None), ([2, 1, 2], [1, 2, 2, 1], None), ([2, 2, 2, 2], [1, 2, 1, 2, 1], None), ([2, 2, 2], [1, 1, 2, 1], None)]
     if th:
         sparse += [([2, 2, 2, 2], [1, 2, 2, 2, 1], None), ([3, 2, 3], [1, 3, 2, 1], None), ([2, 2, 2], [1, 2, 2, 1], [1, 2, 1])]
     for N, Rx, M in sparse:
@@ -72,6 +72,10 @@ def cases(tier, seed):
             if pats:
                 s['patterns'] = pats
             cs.append({'scen': 'riem_gradient', 's': s, 'opts': AD})
+            if fk == 'linear' or (fk == 'quadratic' and th):
+                cs.append({'scen': 'riem_gradient', 's': dict(s, before='gradient'), 'opts': AD})
+                if th or not pats:
+                    cs.append({'scen': 'riem_gradient', 's': dict(s, before='projection'), 'opts': AD})
     return cs
 
 
